@@ -543,4 +543,42 @@ ANCHORS: dict[str, list[str]] = {
 for _p, _a in ANCHORS.items():
     PROPS[_p]['anchors'] = _a
 
+# Workload parts added after the mutation rounds (appended to the generation rule reported in the evidence).
+RULE_ADDENDA = {
+    'C01': ' A quarter of the pattern cases are bare (no context, no scalar: chains whose operands all cancel); near-miss forms include '
+           'duplicate-index P @ P.T and index pairs differing by an integer or a slice; block pairs that cannot be paired followed by pairs that can.',
+    'C02': ' The final expression of every tree case is applied to a vector under the reference model of the scalar operator (C02.mv: each '
+           'leaf judged in its own precision and dtype; scalars include values that are not dyadic; pytrees of mixed dtypes).',
+    'C03': ' Every twelfth case is an "observation loop": operators of one class built from fresh parameter arrays, transposed, used, dropped '
+           'and garbage-collected in turn (20-60 rotations in a tight loop, or 6-13 monitored operators).',
+    'C04': ' The class round-robin includes solver-based inverses of bare symmetric-tagged operands (positive and negative definite Toeplitz); '
+           'Toeplitz atoms take user-chosen FFT sizes from the minimum 2K-1 upwards.',
+    'C06': ' A third of the lazy cases first take a loose preview inverse of the same operand object under other solver settings; a quarter of '
+           'the blocks of generated block-diagonals are solver-inverted SPD blocks next to closed-form ones.',
+    'C07': ' A quarter of the cases are bare patterns (the whole chain cancels); patterns include cancelling block-diagonal pairs and a '
+           'mismatched block pair followed by a matching pair of the same classes.',
+    'C08': ' One case in six probes a rectangular Toast observation-matrix file (must be refused or not answer square).',
+    'C09': ' A third of the 64-bit cases use float32 band values on float64 data (judged at float32 accuracy for the FFT methods, output dtype '
+           'still the input dtype).',
+    'C10': ' A quarter of the product cases are chains: a block pair that cannot be paired followed by one that can, or two block-diagonals '
+           'whose blocks cancel pairwise (the result must be the identity on the structure of the chain).',
+    'C11': ' The reference-model monitor also checks the result dtype against the promotion of the stored values with each leaf.',
+    'C12': ' Stokes inputs are also indexed directly (x[index] must equal the operator); sorted index arrays that look like ranges ([0,0,2]); '
+           'a quarter of the pack part reduces products of two DIFFERENT selections (near misses), which must keep their map.',
+    'C13': ' Half of the two-leaf reshape cases use leaves of equal size and different shapes with the shape of one of them as target.',
+    'C14': ' One string in five is built with blocks strictly wider than the data (result dtype = promotion; structure swap judged on shapes '
+           'only there); a transpose that is neither an einsum operator with rewritten subscripts nor an error is a violation.',
+    'C15': ' Factory results are used as left and right factors of products and judged again afterwards.',
+    'C16': ' Samplings include scans across the pole with negative co-latitudes and scans carrying an off-axis detector exactly onto a pole; '
+           'border-ambiguous samples must read one of the candidate pixels within 1e-9 of the direction.',
+    'C17': ' Coverage is also taken on grid landscapes with up to 12 pixels per axis (coordinates beyond 2 pi), all samples in the map.',
+    'C18': ' One case in ten applies one bare operator object (atom, transpose, closed-form inverse) first inside a jit closing over constant '
+           'data, then eagerly, then in a second jit, against a history-free copy; a third of the other cases start with such a jit.',
+    'C19': ' A third of the create events invert one shared operand object through .I (earlier inverses alive).',
+    'C20': ' Tree helpers include as_promoted_dtype with one weakly typed leaf, call sequences on one structure (sign of zero compared) and '
+           'the same request before/inside/after a temporary switch of the 64-bit mode.',
+}
+for _p, _t in RULE_ADDENDA.items():
+    PROPS[_p]['rule'] = PROPS[_p]['rule'] + _t
+
 NOT_APPLICABLE: dict[str, str] = {}
